@@ -419,7 +419,7 @@ CHECKS = {
                           'FastPasta.C14.validator_msgs_no_hbf_trig', 'FastPasta.run_seen', 'FastPasta.run_filtered', 'FastPasta.run_payload', 'FastPasta.run_hbfs',
                           'FastPasta.run_trig']),
     'C18': dict(modules=['FastPasta.Props.C18'], needs_harness=False, corr='truncation_model', run=run_c18,
-                theorems=['FastPasta.C18.truncated_findings_are_prefix', 'FastPasta.C18.linkRun_append', 'FastPasta.C18.link_findings_prefix',
+                theorems=['FastPasta.C18.truncated_findings_are_prefix', 'FastPasta.linkRun_append', 'FastPasta.C18.link_findings_prefix',
                           'FastPasta.C18.runValidators_append', 'FastPasta.C18.dispStep_msgs_grow', 'FastPasta.C18.validator_msgs_grow',
                           'FastPasta.C03.scan_complete_prefix']),
 }
